@@ -324,6 +324,9 @@ def gen_tree_program(rng, tier, bad=0.0, loss_p=0.25, max_leaves=4, meta=None):
     primitives after additions (mode numbering skips ancillas)."""
     prog = []
     nid = 0
+    anc = {}      # estimate of the ancilla modes a circuit has accumulated (own heralds + those of added circuits)
+    cap_full = 12 if tier == "quick" else 16   # bound on visible + ancilla modes of any circuit: exact rational
+    #                                            matrices of dimension 30+ with 40 components take minutes each
     vis = {}      # user-visible mode count (= n at creation)
     opn = {}      # non-heralded modes seen by a parent = vis - #external heralds
     depth = {}
@@ -337,9 +340,17 @@ def gen_tree_program(rng, tier, bad=0.0, loss_p=0.25, max_leaves=4, meta=None):
         vis[cid], opn[cid], depth[cid] = n, n, d
         return cid
 
+    nls = {}      # estimate of the loss elements a circuit has accumulated
+    cap_dim = 18 if tier == "quick" else 24     # bound on the dimension of U_full (modes + ancillas + loss modes)
+
     def prims(cid, k):
         for _ in range(k):
-            prog.append(gen_primitive(rng, cid, vis[cid], bad=bad, loss_p=loss_p))
+            o = gen_primitive(rng, cid, vis[cid], bad=bad, loss_p=loss_p)
+            nl = 1 if o[0] == "loss" else (2 if o[0] == "bs" and o[5] is not None else (1 if o[0] == "ps" and o[4] is not None else 0))
+            if nl and vis[cid] + anc.get(cid, 0) + nls.get(cid, 0) + nl > cap_dim:
+                continue
+            nls[cid] = nls.get(cid, 0) + nl
+            prog.append(o)
 
     def heralds(cid, k):
         n = vis[cid]
@@ -350,6 +361,7 @@ def gen_tree_program(rng, tier, bad=0.0, loss_p=0.25, max_leaves=4, meta=None):
         outs = list(ins) if rng.random() < 0.5 else rng.sample(range(n), k)
         for i, o in zip(ins, outs):
             prog.append(["herald", cid, rng.choice([0, 0, 1, 1, 2]), i, None if (i == o and rng.random() < 0.5) else o])
+            anc[cid] = anc.get(cid, 0) + 1
         if rng.random() < bad:
             # rejected herald calls: duplicate on both sides, only the input taken, only the OUTPUT taken
             # (free input mode: a check-then-record-per-side implementation would leave a half-written herald),
@@ -396,7 +408,13 @@ def gen_tree_program(rng, tier, bad=0.0, loss_p=0.25, max_leaves=4, meta=None):
                 mode = 0
             else:
                 mode = rng.randint(0, max(0, vis[parent] - k))
+            if (vis[parent] + anc.get(parent, 0) + anc.get(sub, 0) > cap_full
+                    or vis[parent] + anc.get(parent, 0) + anc.get(sub, 0) + nls.get(parent, 0) + nls.get(sub, 0) > cap_dim) \
+                    and rng.random() > bad:
+                continue
             prog.append(["add", parent, sub, mode, rng.random() < 0.4])
+            anc[parent] = anc.get(parent, 0) + anc.get(sub, 0)
+            nls[parent] = nls.get(parent, 0) + nls.get(sub, 0)
             if rng.random() < 0.6:
                 prims(parent, rng.randint(1, 2))
         if rng.random() < 0.4:
@@ -405,6 +423,8 @@ def gen_tree_program(rng, tier, bad=0.0, loss_p=0.25, max_leaves=4, meta=None):
         if r < 0.1:
             prog.append(["copy", nid, parent])
             vis[nid], opn[nid], depth[nid] = vis[parent], opn[parent], depth[parent]
+            anc[nid] = anc.get(parent, 0)
+            nls[nid] = nls.get(parent, 0)
             pool.append(nid)
             nid += 1
         elif r < 0.2:
